@@ -209,3 +209,78 @@ package storage
 //@   option nosafety
 //@   modifies nothing
 //@   ensures @nonNil (operation == openfgav1.TupleOperation_TUPLE_OPERATION_WRITE || operation == openfgav1.TupleOperation_TUPLE_OPERATION_DELETE) ==> err != nil
+
+// ------------------------------------------------------------------ C23: sequential iterator adapters
+// filtering adapter: a tuple is yielded only if it is the underlying iterator's current tuple and the filter accepted
+// exactly that tuple; the underlying iterator's error (done included) is passed through with no tuple
+//@ func (*filteredTupleKeyIterator).Next(f, ctx) (res, err)
+//@   property C23
+//@   option nosafety
+//@   ensures @onlyAccepted err == nil ==> res == last && lastErr == nil && judged == last && verdict
+//@   ensures @errorPassThrough err != nil ==> res == nil && err == lastErr
+//@   monitor filter
+//@     ghost last *openfgav1.TupleKey = nil
+//@     ghost lastErr error = nil
+//@     ghost judged *openfgav1.TupleKey = nil
+//@     ghost verdict = false
+//@     after call storage.TupleKeyIterator.Next | storage.Iterator.Next returning x, e : last = x ; lastErr = e ; verdict = false ; judged = nil
+//@     after call field:filter args k returning b : judged = k ; verdict = b
+
+//@ func (*filteredTupleKeyIterator).Head(f, ctx) (res, err)
+//@   property C23
+//@   option nosafety
+//@   ensures @onlyAccepted err == nil ==> res == last && judged == last && verdict
+//@   ensures @errorNoTuple err != nil ==> res == nil
+//@   monitor filter
+//@     ghost last *openfgav1.TupleKey = nil
+//@     ghost judged *openfgav1.TupleKey = nil
+//@     ghost verdict = false
+//@     after call storage.TupleKeyIterator.Head | storage.Iterator.Head returning x, e : last = x ; verdict = false ; judged = nil
+//@     after call field:filter args k returning b : judged = k ; verdict = b
+
+// condition-filtering adapter: a tuple is yielded only if the filter accepted exactly that tuple without error; a
+// filter error never yields the tuple
+//@ func (*ConditionsFilteredTupleKeyIterator).Next(f, ctx) (res, err)
+//@   property C23 C01
+//@   option nosafety
+//@   ensures @onlyValid err == nil ==> res == last && lastErr == nil && judged == last && verdict && verdictErr == nil
+//@   ensures @errorNoTuple err != nil ==> res == nil
+//@   monitor filter
+//@     ghost last *openfgav1.TupleKey = nil
+//@     ghost lastErr error = nil
+//@     ghost judged *openfgav1.TupleKey = nil
+//@     ghost verdict = false
+//@     ghost verdictErr error = nil
+//@     after call storage.TupleKeyIterator.Next | storage.Iterator.Next returning x, e : last = x ; lastErr = e ; verdict = false ; judged = nil
+//@     after call field:filter args k returning b, e : judged = k ; verdict = b ; verdictErr = e
+
+// tuple -> tuple key mapping adapter: the key of exactly the underlying iterator's tuple, errors passed through
+//@ func (*tupleKeyIterator).Next(t, ctx) (res, err)
+//@   property C23
+//@   option nosafety
+//@   ensures @keyOfNext err == nil ==> lastErr == nil && res == last.GetKey()
+//@   ensures @errorPassThrough err != nil ==> res == nil && err == lastErr
+//@   monitor inner
+//@     ghost last *openfgav1.Tuple = nil
+//@     ghost lastErr error = nil
+//@     after call storage.TupleIterator.Next | storage.Iterator.Next returning x, e : last = x ; lastErr = e
+
+// ordered merge: what is yielded is the next element of the source that head() selected, and it becomes lastYielded
+// (the duplicate filter and the order check of the following head() compare against it)
+//@ func (*OrderedCombinedIterator).Next(c, ctx) (res, err)
+//@   property C23
+//@   option nosafety
+//@   option stable c
+//@   option defer_neutral
+//@   ensures @fromSelected err == nil ==> headed && headErr == nil && nexted && nextErr == nil && res == nextT && c.lastYielded == res && c.lastHead == nil
+//@   ensures @errorNoTuple err != nil ==> res == nil
+//@   monitor merge
+//@     ghost headed = false
+//@     ghost headIdx int = 0
+//@     ghost headErr error = nil
+//@     ghost nexted = false
+//@     ghost nextT *openfgav1.Tuple = nil
+//@     ghost nextErr error = nil
+//@     after call (*storage.OrderedCombinedIterator).head returning i, e : headed = true ; headIdx = i ; headErr = e
+//@     before call storage.TupleIterator.Next | storage.Iterator.Next args it, _ : assert headed && headErr == nil && it == c.pending[headIdx]
+//@     after call storage.TupleIterator.Next | storage.Iterator.Next returning x, e : nexted = true ; nextT = x ; nextErr = e
